@@ -14,6 +14,7 @@ const c03Accept = "application/activity+json"
 
 type c03Slot struct {
 	url     string
+	path    string
 	host    string
 	status  string // three characters (possibly symbolic)
 	headers []int  // header kinds
@@ -47,12 +48,21 @@ const (
 
 var c03Bodies = []string{`{"id":"https://x/y","k":1}`, `[1,2]`, `42`, `{"a":`, ``}
 
-func c03URL(i int) (string, string) {
+// URL styles: 0 = /sN; in the others the first two URLs (same host) differ
+// only in a way a lossy normalisation would erase - an escaped slash, the
+// query, a trailing slash - while the server keeps them apart.
+var c03Styles = [][2]string{{"/s0", "/s1"}, {"/s0%2Fz", "/s0/z"}, {"/s0?v=1", "/s0?v=2"}, {"/s0", "/s0/"}}
+
+func c03URL(i int, style int) (string, string, string) {
 	host := VHostA
 	if i >= 2 {
 		host = VHostB
 	}
-	return "https://" + host + "/s" + string(rune('0'+i)), host
+	path := "/s" + string(rune('0'+i))
+	if i < 2 {
+		path = c03Styles[style][i]
+	}
+	return "https://" + host + path, host, path
 }
 
 // canned behaviours for the secondary URLs
@@ -86,11 +96,15 @@ func c03Canned(slots []*c03Slot, i int, kind int) {
 // (symbolic status digits, 0..2 headers, any body); every other URL shows one
 // of the canned behaviours.
 func c03World(nslots int, general bool) (*VWorld, []*c03Slot) {
+	return c03WorldStyled(nslots, general, 0)
+}
+
+func c03WorldStyled(nslots int, general bool, style int) (*VWorld, []*c03Slot) {
 	w := NewWorld()
 	slots := make([]*c03Slot, nslots)
 	for i := range slots {
 		s := &c03Slot{}
-		s.url, s.host = c03URL(i)
+		s.url, s.host, s.path = c03URL(i, style)
 		slots[i] = s
 	}
 	for i, s := range slots {
@@ -120,7 +134,7 @@ func c03World(nslots int, general bool) (*VWorld, []*c03Slot) {
 		}
 		c03Canned(slots, i, verifrt.Choice("canned", verifrt.Param("canned", cKinds)))
 	}
-	for _, s := range slots {
+	for i, s := range slots {
 		var sb strings.Builder
 		sb.WriteString("HTTP/1.1 " + s.status + " Whatever\r\n")
 		for h, k := range s.headers {
@@ -136,9 +150,9 @@ func c03World(nslots int, general bool) (*VWorld, []*c03Slot) {
 			case hLocAbs:
 				sb.WriteString("Location: " + slots[s.locs[h]].url + "\r\n")
 			case hLocRel:
-				sb.WriteString("location: /s" + string(rune('0'+s.locs[h])) + "\r\n")
+				sb.WriteString("location: " + slots[s.locs[h]].path + "\r\n")
 			case hLocPlainHTTP:
-				sb.WriteString("Location: http://" + slots[s.locs[h]].host + "/s" + string(rune('0'+s.locs[h])) + "\r\n")
+				sb.WriteString("Location: http://" + slots[s.locs[h]].host + slots[s.locs[h]].path + "\r\n")
 			case hOther:
 				sb.WriteString("X-Whatever: content-type: application/json\r\n")
 			case hContentLocation:
@@ -146,9 +160,14 @@ func c03World(nslots int, general bool) (*VWorld, []*c03Slot) {
 			}
 		}
 		sb.WriteString("\r\n")
-		sb.WriteString(c03Bodies[s.body])
+		if s.body == bObject {
+			// every URL serves its own document
+			sb.WriteString(`{"id":"https://x/y","k":` + string(rune('0'+i)) + `}`)
+		} else {
+			sb.WriteString(c03Bodies[s.body])
+		}
 		s.raw = sb.String()
-		w.Routes[s.host+"/s"+s.url[len(s.url)-1:]] = NewResp(s.raw)
+		w.Routes[s.host+s.path] = NewResp(s.raw)
 	}
 	return w, slots
 }
@@ -202,7 +221,7 @@ func c03Ref(slots []*c03Slot, i int, budget int) int {
 	return i
 }
 
-func c03Get(slots []*c03Slot, i int, budget int) (ok bool, source string, id string, nreq int) {
+func c03Get(slots []*c03Slot, i int, budget int) (ok bool, source string, k int, nreq int) {
 	before := len(VerifRequests())
 	u, err := url.Parse(slots[i].url)
 	verifrt.Assert(err == nil, "slot-url-parses")
@@ -210,21 +229,23 @@ func c03Get(slots []*c03Slot, i int, budget int) (ok bool, source string, id str
 	nreq = len(VerifRequests()) - before
 	if gerr != nil {
 		verifrt.Assert(doc == nil && src == nil, "error-comes-without-document")
-		return false, "", "", nreq
+		return false, "", -1, nreq
 	}
 	verifrt.Assert(doc != nil && src != nil, "document-comes-with-source")
-	if s, isStr := doc["id"].(string); isStr {
-		id = s
+	k = -1
+	if f, isNum := doc["k"].(float64); isNum {
+		k = int(f)
 	}
-	return true, src.String(), id, nreq
+	return true, src.String(), k, nreq
 }
 
 func c03Check(slots []*c03Slot, i, budget int) {
 	want := c03Ref(slots, i, budget)
-	ok, source, _, nreq := c03Get(slots, i, budget)
+	ok, source, k, nreq := c03Get(slots, i, budget)
 	verifrt.Assert(ok == (want >= 0), "document-iff-the-exchange-is-acceptable")
 	if ok && want >= 0 {
 		verifrt.Assert(source == slots[want].url, "source-is-the-final-url")
+		verifrt.Assert(k == want, "document-is-the-one-the-final-url-serves")
 	}
 	verifrt.Assert(nreq <= budget+1, "at-most-one-request-per-allowed-hop")
 	verifrt.Observe("ok", ok)
@@ -254,7 +275,7 @@ func VerifC03Classify() {
 // history-free answer, whatever was fetched before and however small the cache.
 func VerifC03History() {
 	nslots := verifrt.Param("slots", 3)
-	w, slots := c03World(nslots, false)
+	w, slots := c03WorldStyled(nslots, false, verifrt.Choice("urlstyle", len(c03Styles)))
 	VerifUseWorld(w, 1+verifrt.Choice("cachesize", 2))
 	// the client fetches everything with one fixed redirect budget
 	budget := verifrt.Int("budget", 0, verifrt.Param("maxbudget", 2))
@@ -268,10 +289,10 @@ func VerifC03History() {
 		// later fetches: a cached redirect target may save hops, so a document
 		// may come back where the budget alone would not reach - but it must be
 		// the right document, and an error must be one the servers justify
-		ok, source, _, nreq := c03Get(slots, i, budget)
+		ok, source, k, nreq := c03Get(slots, i, budget)
 		unlimited := c03Ref(slots, i, 2*nslots)
 		if ok {
-			verifrt.Assert(unlimited >= 0 && source == slots[unlimited].url, "refetch-returns-the-same-document-and-source")
+			verifrt.Assert(unlimited >= 0 && source == slots[unlimited].url && k == unlimited, "refetch-returns-the-same-document-and-source")
 		} else {
 			verifrt.Assert(c03Ref(slots, i, budget) < 0, "refetch-fails-only-if-it-would-fail-on-its-own")
 		}
